@@ -622,6 +622,13 @@ def simplify_boolean_expressions(source: str) -> str:
 
             continue
 
+        try:
+            left < right
+        except TypeError:
+            # The values cannot be ordered, like 1 < "a", so the comparison has no known value
+            if not isinstance(operator, (ast.Eq, ast.NotEq)):
+                continue
+
         if isinstance(operator, ast.Eq):
             yield node, ast.Constant(value=left == right, kind=None)
 
